@@ -18,6 +18,6 @@ VARIANTS = [
       "            if shape in LFRicConstants().VALID_QUADRATURE_SHAPES:\n                rule = self._kern.qr_rules[shape]\n                basis_name",
       "silent"),
     SV("call-psyir-missing", C, "KernCallArgList.cell_position",
-       "self.append(cell_ref_name, var_accesses)", "self.append(cell_ref_name, var_accesses)\nself.append(cell_ref_name, var_accesses)", "fires:C21.R"),
+       "self.append(cell_ref_name)", "self.append(cell_ref_name)\nself.append(cell_ref_name)", "fires:C21.R"),
     V("stub-overrides-generate", S, "class KernStubArgList(ArgOrdering):", "class KernStubArgList(ArgOrdering):\n    def generate(self, var_accesses=None):\n        self.cell_position(var_accesses)\n", "fires:C21.R1"),
 ]
